@@ -141,3 +141,27 @@ Example c29_nonvacuous :
   accepts [DevSend 10 m1; DevRecv 20 m1; DevRecv 20 m1; End] = false /\
   accepts [DevSend 10 m1; DevSend 10 m3; DevRecv 20 m1; End] = false.
 Proof. vm_compute. repeat split; reflexivity. Qed.
+
+(** Link between the evaluator applied to every real run ([Exec.holds_on]) and
+    the declarative statement: a run on which it returns [true] satisfies
+    [Declarative], was closed by [End], and therefore delivered everything. *)
+From Akita Require Import C29.Exec.
+Theorem c29_holds_on_sound : forall c, holds_on c = true ->
+  Declarative (c_trace c) /\
+  exists pre, c_trace c = pre ++ [End] /\ forall m, In m (sent pre) -> In m (recvd pre).
+Proof.
+  intros c H. unfold holds_on in H. apply andb_true_iff in H. destruct H as [H _].
+  apply andb_true_iff in H. destruct H as [Ha He].
+  pose proof (accepts_sound _ Ha) as D. split; [exact D|].
+  unfold ends_with_end in He. destruct (rev (c_trace c)) as [|e r] eqn:R; [discriminate|].
+  destruct e; try discriminate.
+  assert (E : c_trace c = rev r ++ [End]).
+  { rewrite <- (rev_involutive (c_trace c)), R. reflexivity. }
+  exists (rev r). split; [exact E|].
+  assert (Hn : nth_error (c_trace c) (length (rev r)) = Some End).
+  { rewrite E. rewrite nth_error_app2 by lia. rewrite Nat.sub_diag. reflexivity. }
+  pose proof (D _ _ Hn) as Hk. cbn [ok_event] in Hk.
+  rewrite E in Hk. rewrite firstn_app, firstn_all, Nat.sub_diag in Hk. cbn [firstn] in Hk. rewrite app_nil_r in Hk.
+  exact Hk.
+Qed.
+Print Assumptions c29_holds_on_sound.
